@@ -99,6 +99,10 @@ type probeFolded struct {
 	Nums  []int    `control:"Num-Lines" delim:"\n" multiline:"true"`
 	Count int      `control:"Folded-Count" multiline:"true"`
 	Flag  bool     `control:"Folded-Flag" multiline:"true"`
+	// members of custom type laid out the same way
+	Ver  version.Version       `control:"Folded-Version" multiline:"true"`
+	Arch dependency.Arch       `control:"Folded-Arch" multiline:"true"`
+	Dep  dependency.Dependency `control:"Folded-Depends" multiline:"true"`
 }
 
 type probeEmbPass struct {
@@ -248,7 +252,7 @@ func dropFieldLines(text, field string) string {
 
 var specC09Scalars = Register(&Spec[ScalarsCase]{
 	Prop: "C09", Name: "scalars",
-	Rule: "values of a probe struct with string, int (full range), uint (full range incl. > MaxInt64), bool, renamed (control:\"X-Renamed\"), required (one possibly empty, one always empty), skipped (control:\"-\", on a string member and on a struct-kind member whose own members are named like document fields), unexported members (string, version.Version, sync.Mutex: neither written nor read), multiline:\"true\" and plain multi-line string fields; strings are single lines without surrounding blanks, multi-line texts are C08 line sequences. Oracle: Unmarshal(Marshal(x)) == x field by field (multi-line strings up to one trailing newline, skipped field stays zero); in the emitted paragraph optional fields with empty rendering are absent, required ones present; removing a required field's lines makes Unmarshal fail; members of an anonymously embedded plain struct (required, optional, renamed) are written and read like the struct's own, also next to an embedded Paragraph; a Paragraph embedded one level down (or under an alias name) still carries the unknown fields through; folded lists, ints and bools without a strip tag; a []*T written and read; three values (full, required-only, partial) marshalled as one slice read back as three values none of which carries a neighbour's fields. Non-trivial: >= 3 non-zero fields; distinct by value.",
+	Rule: "values of a probe struct with string, int (full range), uint (full range incl. > MaxInt64), bool, renamed (control:\"X-Renamed\"), required (one possibly empty, one always empty), skipped (control:\"-\", on a string member and on a struct-kind member whose own members are named like document fields), unexported members (string, version.Version, sync.Mutex: neither written nor read), multiline:\"true\" and plain multi-line string fields; strings are single lines without surrounding blanks, multi-line texts are C08 line sequences. Oracle: Unmarshal(Marshal(x)) == x field by field (multi-line strings up to one trailing newline, skipped field stays zero); in the emitted paragraph optional fields with empty rendering are absent, required ones present; removing a required field's lines makes Unmarshal fail; members of an anonymously embedded plain struct (required, optional, renamed) are written and read like the struct's own, also next to an embedded Paragraph; a Paragraph embedded one level down (or under an alias name) still carries the unknown fields through; folded (multiline:\"true\") lists, ints, bools and members of custom type (version, architecture - seven names, wildcards among them -, relationship field) without a strip tag, through Marshal/Unmarshal and through ConvertToParagraph/UnpackFromParagraph; a []*T written and read; three values (full, required-only, partial) marshalled as one slice read back as three values none of which carries a neighbour's fields. Non-trivial: >= 3 non-zero fields; distinct by value.",
 	Check: func(c ScalarsCase, r *Recorder) error {
 		nz := 0
 		for _, s := range []string{c.Str, c.Renamed, c.Req, c.Multi, c.Text} {
@@ -488,12 +492,23 @@ var specC09Scalars = Register(&Spec[ScalarsCase]{
 		}
 		// folded lists and scalars without a strip tag
 		fin := probeFolded{Lines: []string{"a", "b" + c.Req}, Nums: []int{1, c.Num}, Count: 5, Flag: true}
+		foldedArch := []string{"amd64", "any", "all", "linux-any", "any-arm64", "musl-linux-armhf", "hurd-i386"}[uint(c.Num)%7]
+		if fa, err := dependency.ParseArch(foldedArch); err == nil {
+			fin.Arch = *fa
+		}
+		fin.Ver = version.Version{Epoch: uint(c.Num) % 3, Version: "1." + strconv.Itoa(int(uint(c.Num)%50)), Revision: []string{"", "1", "2~x"}[uint(c.Num)%3]}
+		if fd, err := dependency.Parse("foo (>= " + fin.Ver.String() + ") [" + []string{"amd64", "!i386 !hurd-any"}[uint(c.Num)%2] + "], bar | baz"); err == nil {
+			fin.Dep = *fd
+		}
+		foldedSame := func(o probeFolded) bool {
+			return o.Arch == fin.Arch && o.Ver == fin.Ver && o.Dep.String() == fin.Dep.String()
+		}
 		ftext, err := marshalToText(&fin)
 		if err != nil {
 			return errf("Marshal(%+v): %v", fin, err)
 		}
 		var fout probeFolded
-		if err := control.Unmarshal(&fout, strings.NewReader(ftext)); err != nil || !strSliceEq(fout.Lines, fin.Lines) || len(fout.Nums) != 2 || fout.Nums[1] != c.Num || fout.Count != 5 || !fout.Flag {
+		if err := control.Unmarshal(&fout, strings.NewReader(ftext)); err != nil || !strSliceEq(fout.Lines, fin.Lines) || len(fout.Nums) != 2 || fout.Nums[1] != c.Num || fout.Count != 5 || !fout.Flag || !foldedSame(fout) {
 			return errf("folded members without a strip tag: %+v written as %q reads back as %+v (err %v)", fin, ftext, fout, err)
 		}
 		// ... and through the paragraph-level pair: what ConvertToParagraph makes of the folded
@@ -502,7 +517,7 @@ var specC09Scalars = Register(&Spec[ScalarsCase]{
 			return errf("ConvertToParagraph(%+v): %v", fin, err)
 		} else {
 			var viaP probeFolded
-			if err := control.UnpackFromParagraph(*fp, &viaP); err != nil || !strSliceEq(viaP.Lines, fin.Lines) || len(viaP.Nums) != 2 || viaP.Nums[0] != 1 || viaP.Nums[1] != c.Num || viaP.Count != 5 || !viaP.Flag {
+			if err := control.UnpackFromParagraph(*fp, &viaP); err != nil || !strSliceEq(viaP.Lines, fin.Lines) || len(viaP.Nums) != 2 || viaP.Nums[0] != 1 || viaP.Nums[1] != c.Num || viaP.Count != 5 || !viaP.Flag || !foldedSame(viaP) {
 				return errf("folded members without a strip tag: ConvertToParagraph(%+v) = %q, which UnpackFromParagraph reads as %+v (err %v)", fin, fp.Values, viaP, err)
 			}
 		}
@@ -650,7 +665,7 @@ func genListsCase(t *rapid.T) ListsCase {
 	// calls a space
 	if len(c.Words) > 0 && rapid.IntRange(0, 5).Draw(t, "nbsp") == 0 {
 		i := rapid.IntRange(0, len(c.Words)-1).Draw(t, "nbspAt")
-		c.Words[i] = c.Words[i] + rapid.SampledFrom([]string{"\u00a0", "\u3000", "\u2003", "\u0085"}).Draw(t, "nbspR") + "x"
+		c.Words[i] = c.Words[i] + rapid.SampledFrom([]string{"\u00a0", "\u3000", "\u2003", "\u0085", "\f", "\v", "\x1f", "\x00"}).Draw(t, "nbspR") + "x"
 	}
 	return c
 }
@@ -669,7 +684,7 @@ func strSliceEq(a, b []string) bool {
 
 var specC09Lists = Register(&Spec[ListsCase]{
 	Prop: "C09", Name: "lists",
-	Rule: "values of a probe struct with []string (default blank delimiter; delim \", \" with elements containing single blanks; delim \",\" + strip \" \"; newline-delimited multiline list), []int, version.Version, dependency.Dependency (canonical C04 renderings incl. substvars), dependency.Arch, []dependency.Arch, []MD5FileHash and multiline []SHA256FileHash, three required lists ([]string, []int, []version.Version with delim \", \") and two required members of custom type (version, architecture; zero in half of the cases); one blank-separated list in six carries an element with NBSP, U+3000, U+2003 or NEL inside; list lengths 0..5. Oracle: Unmarshal(Marshal(x)) == x field by field (nil == empty slice; versions by parts; dependencies structurally; arches by triple; file hashes by (algorithm, hash, size, name)); empty lists and zero custom values are omitted, required lists are written even when empty and an empty one reads back as an empty list. Non-trivial: >= 3 non-zero fields of >= 3 kinds; distinct by value.",
+	Rule: "values of a probe struct with []string (default blank delimiter; delim \", \" with elements containing single blanks; delim \",\" + strip \" \"; newline-delimited multiline list), []int, version.Version, dependency.Dependency (canonical C04 renderings incl. substvars), dependency.Arch, []dependency.Arch, []MD5FileHash and multiline []SHA256FileHash, three required lists ([]string, []int, []version.Version with delim \", \") and two required members of custom type (version, architecture; zero in half of the cases); one blank-separated list in six carries an element with NBSP, U+3000, U+2003, NEL, form feed, vertical tab, US or NUL inside (a blank-separated list is separated by blanks, tabs and line ends); list lengths 0..5. Oracle: Unmarshal(Marshal(x)) == x field by field (nil == empty slice; versions by parts; dependencies structurally; arches by triple; file hashes by (algorithm, hash, size, name)); empty lists and zero custom values are omitted, required lists are written even when empty and an empty one reads back as an empty list. Non-trivial: >= 3 non-zero fields of >= 3 kinds; distinct by value.",
 	Check: func(c ListsCase, r *Recorder) error {
 		kinds := 0
 		for _, l := range [][]string{c.Words, c.Commas, c.Loose, c.Lines, c.Archs} {
